@@ -852,6 +852,14 @@ func genTarget(rng *vlib.Rng) (int, []byte, int) {
 		if rng.Intn(6) == 0 {
 			b = genBytes(rng, n, []byte{':', '[', ']', '.', 0, 0xff, 'a', '1'})
 		}
+		if rng.Intn(5) == 0 {
+			// what clients put into DOMAINNAME besides FQDNs: literals, brackets, zones, port-like
+			// suffixes - the front end copies the name verbatim
+			base := vlib.Pick(rng, []string{fmt.Sprintf("h%x.example", rng.Intn(1<<16)), fmt.Sprintf("192.0.2.%d", rng.Intn(256)),
+				fmt.Sprintf("2001:db8::%x:%x", rng.Intn(65536), rng.Intn(65536)), "::1", "::", "fe80::1"})
+			b = []byte(vlib.Pick(rng, []string{base, "[" + base + "]", base + ":443", "[" + base + "]:443", base + "%eth0", "[" + base + "%25eth0]",
+				base + ":", ":" + base, base + "::", "[" + base, base + "]", base + ":443:80", base + ":zz", "1:2:3:4:5:6:7:" + base, "http://" + base + "/"}))
+		}
 		return 3, b, port
 	default:
 		return 4, genIPv6(rng), port
